@@ -218,6 +218,10 @@ func RunTasks(ctx *common.Ctx, bin string, tasks []Task, par int, stopOnFound bo
 			_ = os.WriteFile(tf, b, 0o644)
 			cmd := exec.Command(bin, t.Check, "--tier", ctx.Tier, "--work", ctx.Work, "--task", tf, "--result", rf)
 			cmd.Env = append(os.Environ(), "GOMAXPROCS=2", fmt.Sprintf("VERIF_SEED=%d", ctx.Seed))
+			if t.W > 0 {
+				// package initialisation of the code under test sees the CPU count the executions will see
+				cmd.Env = append(cmd.Env, fmt.Sprintf("VSCHED_NUMCPU=%d", t.W))
+			}
 			var errb bytes.Buffer
 			cmd.Stderr = &errb
 			cmd.Stdout = &errb
